@@ -146,9 +146,10 @@ example : ∃ s : Sys, (s.conn 7).tx = some [("ping", [])] ∧ (s.conn 7).txFail
 
 /-! ## 4. the commands inside EXEC are run by the same runner as outside -/
 
-theorem runInner_eq_runCommand (mode : Mode) (c : Nat) (sig : Sig) (raw : List Bytes) (h : sig.name ≠ "exec") :
+theorem runInner_eq_runCommand (mode : Mode) (c : Nat) (sig : Sig) (raw : List Bytes) (h : sig.name ≠ "exec")
+    (hs : scriptNames.contains sig.name = false) :
     runInner mode c sig raw = runCommand mode c sig raw false :=
-  runInner_eq_runCommand' mode c sig raw h
+  runInner_eq_runCommand' mode c sig raw h hs
 
 example : ∃ sig : Sig, SigTable.find "get" = some sig ∧ sig.name ≠ "exec" := ⟨_, rfl, by decide⟩
 
